@@ -693,8 +693,47 @@ func c05Registry(c *core.Ctx) {
 	}
 }
 
+// c05Long: long flat operator strings (one shape per length) mixing plugin and built-in operators.
+func c05Long(c *core.Ctx) {
+	cycles := [][]string{{"X"}, {"X", "+"}, {"*", "X", "+", "Y"}, {"Y", "X"}, {"X", "==", "Y", "||", "*"}}
+	for _, lx := range []int{1, 3, 7, 8, 9, 12, 13} {
+		e, tab, rerr := c05GroupEnv(lx, 7)
+		if rerr != "" {
+			continue
+		}
+		for _, n := range []int{9, 17, 33, 65, 129, 257} {
+			for ci, cyc := range cycles {
+				if !c.Next() || c.Tick() {
+					continue
+				}
+				toks := []string{"a"}
+				for i := 0; i < n; i++ {
+					toks = append(toks, cyc[i%len(cyc)])
+					if i%5 == 3 {
+						toks = append(toks, "P")
+					}
+					toks = append(toks, []string{"b", "c", "d"}[i%3])
+					if i%7 == 5 {
+						toks = append(toks, "Q")
+					}
+				}
+				c.Inc("grouping_cases")
+				c.Inc("long_operator_strings")
+				k, d := c05Compare(e, toks, tab)
+				if k == "" {
+					c.Inc("grouping_cases_agree")
+				} else if c.ShrinkOK("long" + k) {
+					pl, _ := json.Marshal(c05Payload{Clause: "group", Toks: toks, LX: lx, LY: 7})
+					c.Violate(core.Violation{Kind: "group-" + k, Config: fmt.Sprintf("X@%d,Y@7,long", lx), Case: fmt.Sprintf("%d operators, cycle %d", n, ci), Detail: core.Short(d, 500), Payload: pl, Size: 1000 + n})
+				}
+			}
+		}
+	}
+}
+
 func c05Run(c *core.Ctx) {
 	c05Group(c)
+	c05Long(c)
 	c05Registry(c)
 }
 
